@@ -38,6 +38,14 @@ def cases(tier):
             out.append(dict(n=n, i=i, mode='lref', kind='throw'))
     for k in KINDS:
         out.append(dict(n=0, i=0, mode='none', kind=k))
+    # a move-only argument handed on as the function's result (RETURN(std::move(_i))): the caller must receive the very
+    # pointee it passed in - without and with a tracer installed (the tracer prints the result before it is handed back);
+    # and every passing mode once more under a live tracer (the tracer prints every argument before the clauses run)
+    for (n, i) in ((1, 1), (3, 2), (15, 15)):
+        out.append(dict(n=n, i=i, mode='uptr', kind='moveret'))
+        out.append(dict(n=n, i=i, mode='uptr', kind='moveret_tr'))
+    for mode in MODES:
+        out.append(dict(n=2, i=1, mode=mode, kind='traced'))
     return out
 
 def gen_case(cid, c):
@@ -47,7 +55,8 @@ def gen_case(cid, c):
         types[i - 1] = ptype(mode)
     # a reference parameter is also handed back as the function's result (int&, int const&, CC const&): it must be the caller's object
     refret = {'lref': 'int&', 'clref': 'int const&', 'ccref': 'CC const&'}.get(mode) if kind != 'throw' else None
-    ret = refret or ('void' if kind == 'throw' else 'int')
+    moveret = kind in ('moveret', 'moveret_tr')
+    ret = refret or ('void' if kind == 'throw' else 'std::unique_ptr<int>' if moveret else 'int')
     sig = '%s(%s)' % (ret, ', '.join(types))
     const = kind == 'const'
     L = []
@@ -67,6 +76,8 @@ def gen_case(cid, c):
     # the case body
     L.append('void case_%d() {' % cid)
     L.append('  %s m; int local = 1; static int dummy = 0; (void)dummy;' % name)
+    if kind in ('moveret_tr', 'traced'):
+        L.append('  std::ostringstream tos; trompeloeil::stream_tracer tr{tos};')
     args = []
     for j in range(1, n + 1):
         if j != i:
@@ -102,6 +113,8 @@ def gen_case(cid, c):
             L.append('    .SIDE_EFFECT(*%s = 77)' % pi)
     if kind == 'throw':
         L.append('    .THROW((rec(%d, F_STABLE_R, %s == g_self), rec(%d, F_RETAL, %s == g_addr), 5));' % (cid, self_expr, cid, addr_expr))
+    elif moveret:
+        L.append('    .RETURN((rec(%d, F_STABLE_R, %s == g_self), std::move(%s)));' % (cid, self_expr, pi))
     elif mode == 'lref':
         L.append('    .RETURN(%s);' % pi)
     elif refret:
@@ -122,6 +135,8 @@ def gen_case(cid, c):
     callee = 'static_cast<%s const&>(m)' % name if const else ('static_cast<I%d&>(m)' % cid if kind == 'implement' else 'm')
     if kind == 'throw':
         L.append('  try { %s.f(%s); } catch (int) {}' % (callee, ', '.join(callargs)))
+    elif moveret:
+        L.append('  std::unique_ptr<int> r = %s.f(%s); rec(%d, F_RETAL, r.get() == g_addr && r && *r == %d);' % (callee, ', '.join(callargs), cid, 100 + i))
     elif refret:
         L.append('  %s r = %s.f(%s); rec(%d, F_RETAL, &r == &obj);' % (refret, callee, ', '.join(callargs), cid))
     else:
@@ -137,6 +152,7 @@ HDR = r'''// GENERATED by harness/gen_c09.py
 #include <trompeloeil.hpp>
 #include <cstdio>
 #include <memory>
+#include <sstream>
 #include <utility>
 using trompeloeil::_;
 struct Tag {};
